@@ -70,7 +70,8 @@ ssize_t HeaderStreamProto::onRecvData(const void *data_ptr, size_t data_size)
         return -2;
     }
 
-    if (content_size + kHeadSize > data_size)   //! 不够
+    //! 64-bit sum: content_size + kHeadSize wraps in 32 bits for lengths >= 0xFFFFFFFA
+    if (static_cast<size_t>(content_size) + kHeadSize > data_size)   //! 不够
         return 0;
 
     const char *str_ptr = static_cast<const char*>(unpack.fetchNoCopy(content_size));
